@@ -5,9 +5,9 @@
  "properties": {"C04": "contract", "C10": "contract", "C19": "safety"},
  "mode": "harness",
  "replace_calls": {"intconstexpr": "stub_intconstexpr"},
- "unwind": 5,
+ "unwind": 5, "cbmc_flags": ["--sat-solver", "cadical"],
  "kind": "bounded",
- "bound": "a member-designator tail of 0..3 designators, each `[ constant-expression ]` or `. identifier`, then any terminator token other than `[` and `.`; the type at each step an array, struct, union or scalar (int) type; index values, element sizes, member offsets and the start offset < 2^16 (no 64-bit wrap-around exercised)",
+ "bound": "a member-designator tail of 0..3 designators, each `[ constant-expression ]` or `. identifier`, then any terminator token other than `[` and `.`; the type at each step an array, struct, union or scalar (int) type; index values and element sizes < 2^8, member offsets and the start offset < 2^16 (no 64-bit wrap-around exercised)",
  "timeout": 200, "replay": false,
  "expects": ["assertion_verif"],
  "assumes": ["next()/expect() are token-script stand-ins (expect(TIDENT) returns a heap-allocated spelling, as scan.c does, or diagnoses)",
@@ -30,6 +30,7 @@ struct expr *eval(struct expr *e) { return e; }
 
 static enum tokenkind s_kind[NTOK];
 static char *s_lit[NTOK];
+static bool s_skip[NTOK];          /* slot not used (a `. identifier` designator has two tokens, `[ n ]` three) */
 static unsigned s_n, s_pos;
 
 void
@@ -37,6 +38,8 @@ next(void)
 {
 	__CPROVER_assert(s_pos < s_n, "designator() does not read past the token that ends the member-designator");
 	__CPROVER_assume(s_pos < s_n);
+	if (s_skip[s_pos])
+		s_pos++;
 	tok.kind = s_kind[s_pos];
 	tok.lit = s_lit[s_pos];
 	tok.loc.file = "in.c"; tok.loc.line = 1; tok.loc.col = s_pos;
@@ -123,8 +126,8 @@ harness(void)
 
 	__CPROVER_assume(in_n <= ND && in_k0 < K_N && in_k1 < K_N && in_k2 < K_N);
 	__CPROVER_assume(in_term >= TNONE && in_term <= THASHHASH && in_term != TLBRACK && in_term != TPERIOD);
-	__CPROVER_assume(in_off0 < 65536 && in_i0 < 65536 && in_i1 < 65536 && in_i2 < 65536 && in_m0 < 65536 && in_m1 < 65536 && in_m2 < 65536);
-	__CPROVER_assume(in_s1 < 65536 && in_s2 < 65536 && in_s3 < 65536);
+	__CPROVER_assume(in_off0 < 65536 && in_i0 < 256 && in_i1 < 256 && in_i2 < 256 && in_m0 < 65536 && in_m1 < 65536 && in_m2 < 65536);
+	__CPROVER_assume(in_s1 < 256 && in_s2 < 256 && in_s3 < 256);
 	isidx[0] = in_d0; isidx[1] = in_d1; isidx[2] = in_d2;
 	kd[0] = in_k0; kd[1] = in_k1; kd[2] = in_k2;
 	iv[0] = in_i0; iv[1] = in_i1; iv[2] = in_i2;
@@ -146,25 +149,28 @@ harness(void)
 	ty[ND].kind = TYPEINT; ty[ND].size = sz[ND];
 
 	/* the script */
-	pos = 0;
 	for (k = 0; k < ND; k++) {
+		pos = 3 * k;
+		g_name[k] = 0;
 		if (k < in_n) {
 			if (isidx[k]) {
-				s_kind[pos] = TLBRACK; s_lit[pos] = 0; pos++;
-				s_kind[pos] = TNUMBER; s_lit[pos] = 0; pos++;
-				s_kind[pos] = TRBRACK; s_lit[pos] = 0; pos++;
-				g_name[k] = 0;
+				s_kind[pos] = TLBRACK; s_lit[pos] = 0; s_skip[pos] = false;
+				s_kind[pos + 1] = TNUMBER; s_lit[pos + 1] = 0; s_skip[pos + 1] = false;
+				s_kind[pos + 2] = TRBRACK; s_lit[pos + 2] = 0; s_skip[pos + 2] = false;
 			} else {
 				g_name[k] = malloc(2);
 				__CPROVER_assume(g_name[k] != 0);
 				g_name[k][0] = 'a' + (char)k; g_name[k][1] = 0;
-				s_kind[pos] = TPERIOD; s_lit[pos] = 0; pos++;
-				s_kind[pos] = TIDENT; s_lit[pos] = g_name[k]; pos++;
+				s_kind[pos] = TPERIOD; s_lit[pos] = 0; s_skip[pos] = false;
+				s_kind[pos + 1] = TIDENT; s_lit[pos + 1] = g_name[k]; s_skip[pos + 1] = false;
+				s_skip[pos + 2] = true;
 			}
+		} else if (k == in_n) {
+			s_kind[pos] = in_term; s_lit[pos] = 0; s_skip[pos] = false;
 		}
 	}
-	s_kind[pos] = in_term; s_lit[pos] = 0; pos++;
-	s_n = pos;
+	if (in_n == ND) { s_kind[3 * ND] = in_term; s_lit[3 * ND] = 0; s_skip[3 * ND] = false; }
+	s_n = 3 * in_n + 1;
 	s_pos = 0;
 
 	/*
